@@ -137,6 +137,7 @@ type lockGen struct {
 	mode   string
 	clean  bool // only requests the modules accept (the block message must then succeed)
 	exodus bool // this block: every validator, the bedrock one included, withdraws everything (the whole set leaves at once)
+	afterBurst int // burst mode: 2 = the next block adds a later maturity instant, 1 = the one after jumps the clock over both
 	boost  bool // this block: nothing but creations and generous locks, so that several validators are active afterwards
 }
 
@@ -357,7 +358,14 @@ func (g *lockGen) plan() *BlockPlan {
 			}
 		}
 	}
-	if g.mode == "burst" && nUnl >= 9 {
+	followUp := false
+	switch g.afterBurst {
+	case 2: // the block after a burst: a later maturity instant, close behind the burst's
+		plan.DT, nUnl, followUp, g.afterBurst = 1, 1+r.Intn(2), true, 1
+	case 1: // then a jump of the clock over BOTH instants: they mature in one sweep (16+ entries ahead of the later ones)
+		plan.DT, g.afterBurst = int64(2+r.Intn(2)), 0
+	}
+	if g.mode == "burst" && (nUnl >= 9 || followUp) {
 		// many small unlocks that really produce queue entries: one unit each, spread over the holdings that exist
 		type hold struct{ vi, ti int }
 		left := map[hold]int64{}
@@ -383,6 +391,9 @@ func (g *lockGen) plan() *BlockPlan {
 			if left[hk]--; left[hk] == 0 {
 				keys = append(keys[:i], keys[i+1:]...)
 			}
+		}
+		if !followUp && len(lk.Unlocks) >= 16 && !g.exodus {
+			g.afterBurst = 2
 		}
 		nUnl = 0
 	}
